@@ -5,6 +5,6 @@ CONSTANTS
   FlagSets <- OneFlags
   TagLists <- McSweep
   Segs <- McSegs
-INVARIANTS Layout RefDec Prefix Final HeaderOk Framing
+INVARIANTS Layout RefDec Prefix Final HeaderOk Framing InputsUntouched NoLoss
 PROPERTY Monotone
 CHECK_DEADLOCK TRUE
